@@ -104,6 +104,14 @@ fn script(n: usize) -> (bool, Vec<Step>, &'static str) {
             ],
             "into_inner",
         ),
+        9 => (
+            false,
+            vec![
+                ("drop_table", Box::new(|p: &mut Pkg| p.drop_table("Items"))),
+                ("create_again", Box::new(|p: &mut Pkg| p.create_table("Items", vec![Column::build("Id").primary_key().int16(), Column::build("Name").nullable().string(64)]))),
+            ],
+            "flush",
+        ),
         // tables whose serialised size lands on and around buffer sizes (4400 = just past 4 KiB
         // at the last column, 8192 = exactly the container's stream buffer, 512 = one sector)
         _ => (
@@ -128,7 +136,7 @@ fn script(n: usize) -> (bool, Vec<Step>, &'static str) {
     }
 }
 
-pub const NUM_SCRIPTS: usize = 9;
+pub const NUM_SCRIPTS: usize = 10;
 
 struct Outcome {
     calls: usize,
